@@ -143,3 +143,171 @@ func GuardF10F11(p Program) Guard {
 		return s, ""
 	}
 }
+
+// tombAdjacent reports whether a removed node lies physically between the
+// k-th live node (k = 0: the start) and the next live node (or the end).
+func tombAdjacent(removed []bool, k int) bool {
+	live := 0
+	i := 0
+	for ; i < len(removed) && live < k; i++ {
+		if !removed[i] {
+			live++
+		}
+	}
+	// i is right after the k-th live node (or 0)
+	for ; i < len(removed); i++ {
+		if !removed[i] {
+			return false
+		}
+		return true
+	}
+	return false
+}
+
+// GuardF48 — purged tombstones stop acting as barriers for the RGA
+// "skip newer siblings" rule (text, array, tree alike): a replica inserts a
+// node N right before a tombstone T it already knows; a peer that has purged T
+// (allowed: every client has seen T's removal) but holds nodes that were
+// inserted after T concurrently places N behind them, everyone else in front
+// of them. The trigger is decidable on the editing replica at creation time:
+// the new node would be inserted at a boundary that is physically followed by a
+// tombstone (a removed text/tree node, a removed array element or a dead array
+// slot). Such inserts are skipped (counted) in runs where clients collect
+// garbage; the GC-off strata are never restricted.
+func GuardF48(d *document.Document, s Step) (Step, string) {
+	skip := Step{}
+	root := d.Root()
+	switch s.Op {
+	case "tedit":
+		tx := root.GetText("t")
+		if tx == nil {
+			return s, ""
+		}
+		n := UTF16Len(tx.String())
+		from := s.A % (n + 1)
+		to := min(n, from+s.B%4)
+		c := Contents[s.C%len(Contents)]
+		if c == "" && from == to {
+			c = "q"
+		}
+		if c == "" {
+			return s, "" // pure delete: inserts nothing
+		}
+		// does `from` fall on a node boundary, and is a tombstone adjacent to it?
+		acc := 0
+		var removed []bool
+		boundaryLive := -1
+		live := 0
+		if from == 0 {
+			boundaryLive = 0
+		}
+		for _, nd := range tx.Nodes() {
+			isRemoved := nd.RemovedAt() != nil
+			removed = append(removed, isRemoved)
+			if !isRemoved {
+				acc += nd.Len()
+				live++
+				if acc == from {
+					boundaryLive = live
+				}
+			}
+		}
+		if boundaryLive >= 0 && tombAdjacent(removed, boundaryLive) {
+			return skip, "F48"
+		}
+	case "aadd", "ains", "amove", "amovefront", "aset":
+		a := root.GetArray("a")
+		if a == nil {
+			return s, ""
+		}
+		n := a.Len()
+		var removed []bool
+		for _, nd := range a.RGATreeList().AllNodes() {
+			removed = append(removed, nd.IsRemoved())
+		}
+		k := -1 // number of live nodes before the insertion point
+		switch {
+		case s.Op == "aadd" || n == 0:
+			k = n
+		case s.Op == "ains":
+			k = s.A%n + 1
+		case s.Op == "aset":
+			k = s.A%n + 1
+		case n < 2:
+			k = n // executed as an append
+		case s.Op == "amove":
+			k = s.A%n + 1 // the new position follows element prev=i
+		case s.Op == "amovefront":
+			k = s.A % n // the new position precedes element next=i
+		}
+		if k >= 0 && tombAdjacent(removed, k) {
+			return skip, "F48"
+		}
+	case "trins", "trtext":
+		tr := root.GetTree("tr")
+		if tr == nil {
+			return s, ""
+		}
+		all := tr.Root().Index.Children(true)
+		var ps []int // physical index of live paragraphs
+		var removed []bool
+		for i, ch := range all {
+			removed = append(removed, ch.Value.IsRemoved())
+			if !ch.Value.IsRemoved() {
+				ps = append(ps, i)
+			}
+		}
+		if s.Op == "trins" {
+			if tombAdjacent(removed, s.A%(len(ps)+1)) {
+				return skip, "F48"
+			}
+			return s, ""
+		}
+		if len(ps) == 0 {
+			if tombAdjacent(removed, 0) { // executed as "insert <p> at 0"
+				return skip, "F48"
+			}
+			return s, ""
+		}
+		p := all[ps[s.A%len(ps)]]
+		plen := p.Value.Index.Len()
+		from := s.B % (plen + 1)
+		to := min(plen, from+s.C%3)
+		c := []string{"", "X", "YZ"}[(s.C/3)%3]
+		if from == to && c == "" {
+			c = "W"
+		}
+		if c == "" {
+			return s, ""
+		}
+		acc, live, boundaryLive := 0, 0, -1
+		if from == 0 {
+			boundaryLive = 0
+		}
+		var cremoved []bool
+		for _, ch := range p.Children(true) {
+			isRemoved := ch.Value.IsRemoved()
+			cremoved = append(cremoved, isRemoved)
+			if !isRemoved {
+				acc += ch.Value.Len()
+				live++
+				if acc == from {
+					boundaryLive = live
+				}
+			}
+		}
+		if boundaryLive >= 0 && tombAdjacent(cremoved, boundaryLive) {
+			return skip, "F48"
+		}
+	}
+	return s, ""
+}
+
+// GCGuard wraps a guard so that it only applies when the replicas collect
+// garbage (the GC-off strata are never restricted by GC-related findings).
+func GCGuard(p Program, g Guard) Guard {
+	if p.Cfg.ClientNoGC {
+		return func(d *document.Document, s Step) (Step, string) { return s, "" }
+	}
+	return g
+}
